@@ -31,6 +31,14 @@ def graph_paths(prog: Program):
     return f, P.paths_of(prog, f)
 
 
+def child_of(p):
+    """The loop variable holding the member annotation: second component of an element of _level(...)."""
+    for e in p.events:
+        if e[0] == "assign" and e[2][0] == "unpack" and e[2][2] == 1 and e[2][1][0] == "elem" and T.is_call_to(e[2][1][1], f"{MOD}._level"):
+            return e[2]
+    return None
+
+
 def _is_typenode(tm) -> bool:
     return T.is_call_to(tm, f"{MOD}.TypeNode")
 
@@ -75,10 +83,7 @@ def r09_1_2(prog: Program, rep: Report):
         for x in preds:
             if x[0] == "star" and x[1][0] == "list":
                 nodes += list(x[1][1])
-        child = None
-        for e in p.events:
-            if e[0] == "assign" and e[1] == "child":
-                child = e[2]
+        child = child_of(p)
         skipped = [(g, pol) for g, pol in p.guards() if g[0] == "cmp" and g[1] == "in" and g[2] == child and g[3][0] in ("tuple", "set", "list")]
         via_pred = [(g, pol) for g, pol in p.guards() if T.is_call_to(g, f"{C.INSP}.isunresolvable") and g[2] == (child,)]
         if via_pred and via_pred[0][1]:
@@ -146,10 +151,7 @@ def r09_5(prog: Program, rep: Report):
     calls = {}
     admits_subscripted = False
     for p in ps:
-        child = None
-        for e in p.events:
-            if e[0] == "assign" and e[1] == "child":
-                child = e[2]
+        child = child_of(p)
         not_class = any((not pol) and T.is_call_to(g, "inspect.isclass") and g[2] == (child,) for g, pol in p.guards())
         for c in p.calls():
             if T.is_call_to(c, "typelib.py.refs.forwardref"):
